@@ -147,6 +147,22 @@ def big_sweep(tier, shard, nshards):
         out.append({'kind': 'header', 'ch': 3, 'body_size': n,
                     'props': {'headers': {'big': 'h' * n}}})
         out.append({'kind': 'body', 'ch': 4, 'data': b'\xce' * min(n, 131072)})
+    # tables whose over-long keys collide after the documented 128-character truncation:
+    # whatever the encoder emits for them, the reader loop must accept it
+    long_a, long_b, exact = 'L' * 129, 'L' * 128 + 'b', 'L' * 128
+    for keys in ([long_a, long_b], [exact, long_a], [long_a, long_b, 'z']):
+        t = {k: i for i, k in enumerate(keys)}
+        out.append({'kind': 'method', 'cls': 'Connection.StartOk', 'ch': 0,
+                    'args': {'client_properties': t, 'mechanism': 'PLAIN',
+                             'response': 'r', 'locale': 'en_US'}})
+        out.append({'kind': 'method', 'cls': 'Queue.Declare', 'ch': 2,
+                    'args': {'ticket': 0, 'queue': 'q', 'passive': False,
+                             'durable': False, 'exclusive': False,
+                             'auto_delete': False, 'nowait': False,
+                             'arguments': {'n': dict(t), 'after': 1}}})
+        out.append({'kind': 'header', 'ch': 3, 'body_size': 1,
+                    'props': {'headers': dict(t), 'delivery_mode': 2,
+                              'app_id': 'after'}})
     return out[shard::nshards]
 
 
